@@ -1009,3 +1009,83 @@ Proof.
   - intros b x d Hb Hx Hne Hnx. apply (H4 b x d); [right; exact Hb|exact Hx|].
     intros [Hin|Hin]; [congruence|contradiction].
 Qed.
+
+(* ---------------------------------------------------------------- growth steps are invisible *)
+(* a capacity growth step of ANY size (k fresh, uninitialised rows appended to _agent_positions; the view
+   agent_positions = _agent_positions[0:n] re-taken), at ANY moment of a history *)
+Definition grow (s : estate) (k : nat) : estate :=
+  {| e_store := e_store s ++ repeat garbage k; e_n := e_n s; e_active := e_active s; e_a2i := e_a2i s |}.
+
+Inductive gop := GOp (o : eop) | GGrow (k : nat).
+
+Fixpoint g_run (c : ecfg) (s : estate) (l : list gop) : list (list Z) :=
+  match l with
+  | [] => []
+  | GGrow k :: t => g_run c (grow s k) t
+  | GOp o :: t => let '(s', r) := estep c s o in e_obs s' r :: g_run c s' t
+  end.
+
+Fixpoint g_final (c : ecfg) (s : estate) (l : list gop) : estate :=
+  match l with
+  | [] => s
+  | GGrow k :: t => g_final c (grow s k) t
+  | GOp o :: t => g_final c (fst (estep c s o)) t
+  end.
+
+Fixpoint ops_of (l : list gop) : list eop :=
+  match l with
+  | [] => []
+  | GGrow _ :: t => ops_of t
+  | GOp o :: t => o :: ops_of t
+  end.
+
+Lemma grow_inv s k : EInv s -> EInv (grow s k).
+Proof.
+  intros [H1 [H2 [H3 H4]]]. unfold EInv, grow. cbn [e_n e_active e_store e_a2i].
+  rewrite app_length. repeat split; try assumption. lia.
+Qed.
+
+(* growth never changes the active prefix: same agents, same rows, hence the same abstract map *)
+Lemma grow_rows s k : EInv s -> e_rows (grow s k) = e_rows s.
+Proof. intros [_ [H2 _]]. unfold e_rows, grow. cbn [e_n e_store]. apply firstn_app_le. exact H2. Qed.
+
+Lemma grow_abs s k : EInv s -> e_abs (grow s k) = e_abs s.
+Proof. intros H. unfold e_abs. rewrite (grow_rows s k H). reflexivity. Qed.
+
+Lemma g_run_refines c l : forall s, EInv s -> g_run c s l = espec_run c (e_abs s) (ops_of l).
+Proof.
+  induction l as [|[o|k] t IH]; intros s Hinv; [reflexivity| |].
+  - cbn [g_run ops_of espec_run]. destruct (estep_sim c s o Hinv) as [Hinv' Hsim].
+    rewrite Hsim. destruct (estep c s o) as [s' r]. cbn [fst snd] in *.
+    rewrite IH by exact Hinv'. f_equal.
+    unfold e_obs, spec_obs. rewrite (view_abs s' Hinv'). reflexivity.
+  - cbn [g_run ops_of]. rewrite IH by (apply grow_inv; exact Hinv). rewrite (grow_abs s k Hinv). reflexivity.
+Qed.
+
+Lemma g_final_refines c l : forall s, EInv s ->
+  EInv (g_final c s l) /\ e_abs (g_final c s l) = espec_final c (e_abs s) (ops_of l).
+Proof.
+  induction l as [|[o|k] t IH]; intros s Hinv; [split; [exact Hinv|reflexivity]| |].
+  - cbn [g_final ops_of espec_final]. destruct (estep_sim c s o Hinv) as [Hinv' Hsim].
+    rewrite Hsim. cbn [fst]. apply IH. exact Hinv'.
+  - cbn [g_final ops_of]. rewrite <- (grow_abs s k Hinv). apply IH. apply grow_inv. exact Hinv.
+Qed.
+
+(* every observation of a history is unchanged by growth steps of any size inserted anywhere in it *)
+Theorem exp_growth_invisible c l :
+  g_run c (e_init c) l = e_run c (e_init c) (ops_of l).
+Proof.
+  rewrite (g_run_refines c l (e_init c) (init_inv c)), <- exp_refines. reflexivity.
+Qed.
+
+(* ... and so are space.agents and every agent's position in the final state *)
+Theorem exp_growth_view_invariant c l a :
+  e_active (g_final c (e_init c) l) = e_active (e_final c (e_init c) (ops_of l)) /\
+  e_getpos (g_final c (e_init c) l) a = e_getpos (e_final c (e_init c) (ops_of l)) a.
+Proof.
+  destruct (g_final_refines c l (e_init c) (init_inv c)) as [Hg Habs].
+  destruct (e_final_refines c (ops_of l) (e_init c) (init_inv c)) as [He Habs'].
+  split.
+  - rewrite <- (e_abs_keys _ Hg), <- (e_abs_keys _ He), Habs, Habs'. reflexivity.
+  - rewrite (getpos_abs _ a Hg), (getpos_abs _ a He), Habs, Habs'. reflexivity.
+Qed.
